@@ -412,10 +412,16 @@ class StmtMixin:
                 for entry in self.reg.rely_clauses(self):
                     if entry[0].startswith(("immutable:", "set-monotone:")):
                         h.heavy.append(entry[1](old_, new_))
-            seg = {}
-            for c in self.comps:
-                seg[c] = fresh("sg." + c, self.comps[c]) if c in open_changed else h.heap[c]
-            h.seg = seg
+            if not h.loopvars["body_has_havoc"]:
+                # no foreign code runs inside the loop: the open segment simply continues (its start is unchanged)
+                open_changed = set()
+                h.loopvars["open_changed"] = set()
+                h.seg = st.seg
+            else:
+                seg = {}
+                for c in self.comps:
+                    seg[c] = fresh("sg." + c, self.comps[c]) if c in open_changed else h.heap[c]
+                h.seg = seg
             if open_changed:
                 old, new = HeapView(h.seg), HeapView(h.heap)
                 for entry in self.reg.guarantees:
